@@ -35,7 +35,9 @@ def run(ctx, module, cfg=None, cfg_text=None, workers=16, timeout=900, env=None,
             f.write(cfg_text)
     cfg = cfg or (module + ".cfg")
     meta = os.path.join(ctx.scratch, "meta_%s_%d" % (module, int(time.time() * 1e6) % 10**9))
-    cmd = ["java", "-XX:+UseParallelGC", "-Xmx6g", "-Xss512m", "-cp",
+    # (a deep thread stack only for single-worker runs - trace validation recurses over long call lists; 16 workers with such
+    # stacks would reserve gigabytes)
+    cmd = ["java", "-XX:+UseParallelGC", "-Xmx6g"] + (["-Xss512m"] if workers == 1 else []) + ["-cp",
            "/opt/veriftools/tla/tla2tools.jar:/opt/veriftools/tla/CommunityModules-deps.jar", "tlc2.TLC",
            "-workers", str(workers), "-metadir", meta, "-noGenerateSpecTE", "-config", cfg] + list(extra) + [module + ".tla"]
     e = dict(os.environ)
